@@ -1,4 +1,5 @@
 import ClaripyProofs.Lemmas.VSA.Convert
+import ClaripyProofs.Lemmas.VSA.ConvertProved
 /-!
 # C24 — VSA evaluation of expressions over annotated variables over-approximates
 
@@ -75,6 +76,45 @@ theorem C24_light_min_max_over (H : OpsOK) (Q : QueriesOK) (anno : Nat → SI) (
   obtain ⟨hw, _, hm⟩ := C24_convert_sound H anno env hctx e o o' av hwt h v hv
   exact ⟨fun m hmin => Q.min av.si m v hw hm hmin, fun m hmax => Q.max av.si m v hw hm hmax⟩
 
+/-! ## with the proved interval operations discharged
+
+`add, sub, neg, not, zero_extend, extract, udiv, shl, lshr`, the join of `If`, and `ULT/ULE/UGT/UGE` are proved (C21, C22), so
+for these no hypothesis is needed.  `OpsRest` (mul, urem, and/or/xor, ashr, sign_extend, concat, the signed orderings, the
+meet behind `==`/`!=`) is consulted only if the AST uses one of them.  ASTs here have a value at every node (`DefBV`). -/
+
+/-- bit-vector ASTs: only the obligations of the operations that are not proved remain, and only if the AST uses them -/
+theorem C24_convert_sound_rest (anno : Nat → SI) (env : Nat → Nat)
+    (hctx : ∀ i, (anno i).WF ∧ (anno i).mem (env i))
+    (e : BV) (R : usesRestBV e = true → OpsRest) (hdef : DefBV env e)
+    (o o' : Orders) (av : AV) (hwt : WTBV anno env e) (h : convBV anno e o = .ok (av, o'))
+    (v : Nat) (hv : evalBV env e = some v) : av.si.WF ∧ av.si.bits = wd e ∧ av.si.mem v :=
+  let g := convBV_good' anno env hctx e o av o' R hdef hwt h
+  ⟨g.1.1, g.1.2, (g.2 v hv).1⟩
+
+/-- **unconditional** for ASTs built from the proved operations: variables with annotations, constants, `+ - neg ~`,
+`ZeroExt`, `Extract`, `/u`, `<<`, `LShR`, `If`, the unsigned orderings and the Boolean connectives -/
+theorem C24_fragment_sound (anno : Nat → SI) (env : Nat → Nat)
+    (hctx : ∀ i, (anno i).WF ∧ (anno i).mem (env i))
+    (e : BV) (hfrag : usesRestBV e = false) (hdef : DefBV env e)
+    (o o' : Orders) (av : AV) (hwt : WTBV anno env e) (h : convBV anno e o = .ok (av, o'))
+    (v : Nat) (hv : evalBV env e = some v) : av.si.WF ∧ av.si.bits = wd e ∧ av.si.mem v :=
+  C24_convert_sound_rest anno env hctx e (fun hh => by rw [hfrag] at hh; cases hh) hdef o o' av hwt h v hv
+
+/-- the same for Boolean ASTs -/
+theorem C24_fragment_bool_sound (anno : Nat → SI) (env : Nat → Nat)
+    (hctx : ∀ i, (anno i).WF ∧ (anno i).mem (env i))
+    (c : BExp) (hfrag : usesRestB c = false) (hdef : DefB env c)
+    (o o' : Orders) (br : BoolRes) (hwt : WTB anno env c) (h : convB anno c o = .ok (br, o'))
+    (b : Bool) (hb : evalB env c = some b) : br.has b = true :=
+  convB_good' anno env hctx c o br o' (fun hh => by rw [hfrag] at hh; cases hh) hdef hwt h b hb
+
+theorem C24_bool_sound_rest (anno : Nat → SI) (env : Nat → Nat)
+    (hctx : ∀ i, (anno i).WF ∧ (anno i).mem (env i))
+    (c : BExp) (R : usesRestB c = true → OpsRest) (hdef : DefB env c)
+    (o o' : Orders) (br : BoolRes) (hwt : WTB anno env c) (h : convB anno c o = .ok (br, o'))
+    (b : Bool) (hb : evalB env c = some b) : br.has b = true :=
+  convB_good' anno env hctx c o br o' R hdef hwt h b hb
+
 /-- non-vacuity and a bounded sanity fact: `If(x <u 4, x + 1, 0)` with `x ∈ 1[2,6]` at 3 bits -/
 def demoExpr : BV := .ite (.cmp .ult (.var 0 3) (.const 4 3)) (.bin .add (.var 0 3) (.const 1 3)) (.const 0 3)
 def demoAnno : Nat → SI := fun _ => SI.new 3 1 2 6
@@ -86,5 +126,11 @@ theorem test_eval_example :
 example : WTBV demoAnno (fun _ => 3) demoExpr := by
   simp only [demoExpr, WTBV, WTB, wd, demoAnno, new_bits]
   decide
+
+/-- the demo expression lies in the proved fragment and has a value at every node -/
+example : usesRestBV demoExpr = false ∧ DefBV (fun _ => 3) demoExpr := by
+  refine ⟨by decide, ?_⟩
+  simp only [demoExpr, DefBV, DefB, true_and, and_true]
+  exact ⟨_, by decide⟩
 
 end Claripy.Props.C24
